@@ -83,8 +83,45 @@ func (s StyleSpec) IsDefault() bool {
 	return s.Style() == tcell.StyleDefault
 }
 
-// Style builds the tcell.Style through the public builder methods only.
+var specs = map[tcell.Style]StyleSpec{tcell.StyleDefault: {}}
+
+// SpecOf returns the spec a style value was built from (styles are opaque:
+// tcell has no accessors for underline and hyperlink parts).
+func SpecOf(st tcell.Style) (StyleSpec, bool) {
+	sp, ok := specs[st]
+	return sp, ok
+}
+
+// MergeNone computes the spec of "n stored over old" under the ColorNone rule
+// and registers the resulting style value.
+func MergeNone(n, old StyleSpec) StyleSpec {
+	m := n
+	if m.Fg == "none" {
+		m.Fg = old.Fg
+	}
+	if m.Bg == "none" {
+		m.Bg = old.Bg
+	}
+	st := n.build()
+	if n.Fg == "none" {
+		st = st.Foreground(old.Fg.Color())
+	}
+	if n.Bg == "none" {
+		st = st.Background(old.Bg.Color())
+	}
+	specs[st] = m
+	return m
+}
+
+// Style builds the tcell.Style through the public builder methods only and
+// remembers which spec it came from.
 func (s StyleSpec) Style() tcell.Style {
+	st := s.build()
+	specs[st] = s
+	return st
+}
+
+func (s StyleSpec) build() tcell.Style {
 	st := tcell.StyleDefault
 	if s.Fg != "" {
 		st = st.Foreground(s.Fg.Color())
@@ -212,7 +249,7 @@ var (
 	narrowRunes = []rune{'é', 'ß', 'Ω', 'Ж', 'א', '€', '→', '‰', 'ñ', 'ø', 'ł', 'Ѣ', '♥', '√'}
 	wideRunes   = []rune{'世', '界', '日', '本', '語', '한', '글', 'あ', 'ア', '！', 'Ａ', '😀', '🚀', '🎉', '㈱'}
 	zeroRunes   = []rune{0x0300, 0x0301, 0x0308, 0x200B, 0x200C, 0x200D, 0x200E, 0x200F, 0x202A, 0x202E, 0xFEFF, 0x00AD, 0xFE0F, 0x20DD, 0x0483}
-	combMarks   = []rune{0x0300, 0x0301, 0x0302, 0x0303, 0x0308, 0x030A, 0x0327, 0x20D7, 0x0483, 0x05B0, 0x0E31}
+	combMarks   = []rune{0x0300, 0x0301, 0x0302, 0x0303, 0x0308, 0x030A, 0x0327, 0x20D7, 0x0483, 0x20DD, 0x0489} // all width 0 in go-runewidth 0.0.16
 	invalidVals = []rune{-1, -2, -128, -0x7fffffff, 0x110000, 0x110001, 0x7fffffff, 0xD800, 0xDBFF, 0xDC00, 0xDFFF, 0xFFFE, 0xFFFF}
 	acsRunes    = []rune{tcell.RuneHLine, tcell.RuneVLine, tcell.RuneULCorner, tcell.RuneLRCorner, tcell.RuneBlock, tcell.RuneDegree, tcell.RunePi, tcell.RuneBullet, tcell.RuneDiamond, tcell.RuneRArrow, tcell.RuneUArrow}
 	astralRunes = []rune{0x1D11E, 0x10348, 0x1F600, 0x2070E, 0xE0041, 0x10FFFF, 0x1F3F4}
